@@ -264,14 +264,21 @@ def annotation(t):
     return {"list": List[inner], "dict": Dict[str, inner], "opt": Optional[inner]}[c]
 
 
-def holder(t):
-    """A configuration class with one parameter x of the given type"""
-    from experimaestro import Config, Param
+CHOICES = {"int": [0, 1, 2, -2], "float": [0.0, 0.5, 1.0, 2.0, -1.5, -2.0], "str": ["a", ""], "path": [Path("a"), Path(".")]}
 
-    key = json.dumps(t, sort_keys=True)
+
+def holder(t, checked=False):
+    """A configuration class with one parameter x of the given type (checked: with a value checker that accepts every
+    value of the vocabulary once it has the declared type)"""
+    from experimaestro import Config, Param
+    from experimaestro.checkers import Choices
+    from experimaestro.core.arguments import Annotated
+
+    key = json.dumps(t, sort_keys=True) + ("/checked" if checked else "")
     if key not in _CLASSES:
         name = f"H{len(_CLASSES)}"
-        ns = {"__annotations__": {"x": Param[annotation(t)]}, "__module__": "xvschema.dyn", "__qualname__": name}
+        ann = Annotated[annotation(t), Choices(CHOICES[t["c"]])] if checked else Param[annotation(t)]
+        ns = {"__annotations__": {"x": ann}, "__module__": "xvschema.dyn", "__qualname__": name}
         cls = type(name, (Config,), ns)
         import xvschema.dyn as dyn
 
@@ -390,35 +397,36 @@ def check_types(rep, tier):
     for ci, c in enumerate(cases):
         rep.cov["evaluations"] += 1
         payload = {"case": c}
-        try:
-            H = holder(c["t"])
-            v = pyvalue(c["v"])
-        except Exception as ex:
-            rep.machinery_failure(f"cannot build type/value of case {ci}: {ex!r}")
-            continue
-        try:
-            o = H()
-            o.x = v
-            stored = absvalue(o.__xpm__.values["x"])
-            readback = absvalue(o.x)
-            raised = None
-        except Exception as ex:
-            stored = readback = None
-            raised = ex
-        want = c["r"]
-        tdesc = json.dumps(c["t"])[:80]
-        if want["k"] == "REJECT":
-            if raised is None:
-                rep.violation(f"C15/accepts/{classify(c['v'], c['t'])}", f"case {ci}: a {c['v']} assigned to a parameter of type {tdesc} is stored as {stored} instead of being rejected", payload)
+        for checked in ([False, True] if c["t"]["c"] in CHOICES else [False]):
+            try:
+                H = holder(c["t"], checked)
+                v = pyvalue(c["v"])
+            except Exception as ex:
+                rep.machinery_failure(f"cannot build type/value of case {ci}: {ex!r}")
+                continue
+            try:
+                o = H()
+                o.x = v
+                stored = absvalue(o.__xpm__.values["x"])
+                readback = absvalue(o.x)
+                raised = None
+            except Exception as ex:
+                stored = readback = None
+                raised = ex
+            want = c["r"]
+            tdesc = json.dumps(c["t"])[:80] + (" with a value checker" if checked else "")
+            if want["k"] == "REJECT":
+                if raised is None:
+                    rep.violation(f"C15/accepts/{classify(c['v'], c['t'])}", f"case {ci}: a {c['v']} assigned to a parameter of type {tdesc} is stored as {stored} instead of being rejected", payload)
+                else:
+                    nontrivial += 1
             else:
-                nontrivial += 1
-        else:
-            if raised is not None:
-                rep.violation(f"C15/rejects/{c['t']['c']}<-{c['v']['k']}", f"case {ci}: a {c['v']} assigned to a parameter of type {tdesc} raises {raised!r}, expected {want}", payload)
-            elif stored != want or readback != want:
-                rep.violation(f"C15/stores/{c['t']['c']}<-{c['v']['k']}", f"case {ci}: a {c['v']} assigned to a parameter of type {tdesc} is stored as {stored} (reads back {readback}), expected {want}", payload)
-        if len(rep.cov["samples"]) < 3 and ci % 997 == 5:
-            rep.sample({"type": c["t"], "value": c["v"], "expected": want})
+                if raised is not None:
+                    rep.violation(f"C15/rejects/{c['t']['c']}<-{c['v']['k']}", f"case {ci}: a {c['v']} assigned to a parameter of type {tdesc} raises {raised!r}, expected {want}", payload)
+                elif stored != want or readback != want:
+                    rep.violation(f"C15/stores/{c['t']['c']}<-{c['v']['k']}", f"case {ci}: a {c['v']} assigned to a parameter of type {tdesc} is stored as {stored} (reads back {readback}), expected {want}", payload)
+            if len(rep.cov["samples"]) < 3 and ci % 997 == 5:
+                rep.sample({"type": c["t"], "value": c["v"], "expected": want})
     rep.cov["traces_validated_against_impl"] += len(cases)
     rep.cov["distinct_nontrivial"] += nontrivial
     rep.cov["exhaustive"] = True
@@ -443,9 +451,25 @@ def missing_required(rep, tier):
         yield "missing below an ignored (Meta) child", lambda: S.T0(x=S.K(a=1, g=S.K()))
         yield "required Meta value missing below an optional child", lambda: S.T0(x=S.K(a=1, c=S.R()))
         yield "required Meta value missing two levels down", lambda: S.T0(x=S.G(z=S.K(a=1, c=S.R())))
+        yield "required Meta value missing inside a list", lambda: S.T0(x=S.K(a=1, l=[S.K(a=2), S.R()]))
+        yield "required Meta value missing inside a dict, below a list", lambda: S.T0(x=S.K(a=1, l=[S.K(a=2, d={"k": S.R()})]))
+        yield "required Meta value missing inside nested lists", lambda: S.T0(x=S.N(ll=[[S.K(a=1)], [S.R()]]))
         yield "missing in a pre-task", lambda: S.T0(x=S.K(a=1)).add_pretasks(S.LW())
         yield "required parameter of the task itself", lambda: S.T()
         yield "missing in the parameter of a nested holder", lambda: S.T1(x=S.G(z=S.K2()))
+
+        def skewed(wrap):
+            # saved by the version of the program in which S1 had no parameter w, loaded by the one in which it is required
+            from experimaestro.core.context import SerializationContext
+            from experimaestro.core.objects import ConfigInformation
+
+            defs = json.loads(json.dumps(S.S1(a=1).__xpm__.__get_objects__([], SerializationContext())))
+            for d in defs:
+                d["module"] = "xvschema.cfg3"
+            return wrap(ConfigInformation.fromParameters(defs, as_instance=False))
+
+        yield "a loaded configuration whose class has gained a required parameter", lambda: skewed(lambda c: S.T0(x=c))
+        yield "a loaded configuration (new required parameter) two levels down", lambda: skewed(lambda c: S.T0(x=S.K(a=1, l=[S.G(z=c)])))
 
     d = tempfile.mkdtemp(prefix="xvc15-", dir=str(tlc.workdir("c15")))
     try:
